@@ -36,10 +36,19 @@ def families(draw):
         cands = [i for i, t in enumerate(tys) if t["depth"] <= maxdepth and t["k"] not in ("slice",)]
         if cands and draw(st.integers(0, 2)) > 0:
             return {"k": "ref", "i": cands[draw(st.integers(0, len(cands) - 1))]}
+        if draw(st.integers(0, 3)) == 0:
+            # an anonymous type written in place (it is registered for reflection only when something reaches it)
+            base = scalar(draw(st.sampled_from(SCALARS)))
+            kind = draw(st.sampled_from(["opt", "ptr", "array"]))
+            if kind == "opt":
+                return {"k": "opt", "inner": base, "depth": 1}
+            if kind == "ptr":
+                return {"k": "ptr", "mut": draw(st.booleans()), "inner": base, "depth": 1}
+            return {"k": "array", "n": draw(st.integers(1, 4)), "elem": base, "depth": 1}
         return scalar(draw(st.sampled_from(SCALARS)))
 
     def depth_of(c):
-        return 0 if c["k"] == "scalar" else tys[c["i"]]["depth"]
+        return 0 if c["k"] == "scalar" else tys[c["i"]]["depth"] if c["k"] == "ref" else c["depth"]
     for i in range(n):
         kinds = ["scalar", "array", "ptr", "opt", "struct", "struct", "enum", "enum", "distinct", "slice"]
         if tys:
@@ -97,7 +106,7 @@ def families(draw):
                     c = scalar(draw(st.sampled_from(SCALARS)))
             t = {"k": "erru", "err": e_, "ok": c, "depth": max(depth_of(c), 1) + 1}
         tys.append(t)
-    return {"types": tys}
+    return {"types": tys, "order": list(draw(st.permutations(list(range(n)))))}
 
 
 def strategy(profile):
@@ -254,6 +263,12 @@ def src_of(c):
         return c["name"]
     if c["k"] == "ref":
         return f"T{c['i']}"
+    if c["k"] == "opt":
+        return "?" + src_of(c["inner"])
+    if c["k"] == "ptr":
+        return f"^{'mut ' if c['mut'] else ''}" + src_of(c["inner"])
+    if c["k"] == "array":
+        return f"[{c['n']}]" + src_of(c["elem"])
     raise KeyError(c["k"])
 
 
@@ -303,7 +318,8 @@ def build(case):
         exp.append(str(int(v)))
     decls = [decl_src(i, t) for i, t in enumerate(tys)]
     lines.append("    buf : [1024]u8;")
-    for i, t in enumerate(tys):
+    for i in case.get("order", range(len(tys))):
+        t = tys[i]
         T = f"T{i}"
         me = {"k": "ref", "i": i}
         r = m.res(me)
@@ -397,6 +413,12 @@ def build(case):
             other = next((j for j in range(n) if m.decl_ident(j) != m.decl_ident(i)), None)
             if other is not None:
                 emit(f"any(T{i}).type!=T{other}", f"core.type_of(any{i}) == T{other}", 0)
+        elif t["k"] == "distinct" and t["inner"]["k"] == "scalar" and t["inner"]["name"] in INTS:
+            # the distinct wrapper is part of the type an `any` carries
+            lines.append(f"    x{i} : T{i} = T{i}.({t['inner']['name']}.(1));")
+            lines.append(f"    any{i} : any = x{i};")
+            emit(f"any(T{i}).type", f"core.type_of(any{i}) == T{i}", 1)
+            emit(f"any(T{i}).type!=underlying", f"core.type_of(any{i}) == {t['inner']['name']}", 0)
     src = PRELUDE + "\n".join(decls) + "\nmain :: () {\n" + "\n".join(lines) + "\n}\n"
     return src, exp
 
